@@ -164,6 +164,7 @@ class C19(common.Check):
         if tr.child_pid:
             probes["forked_histories"] = 1
         return {"viol": viol, "digest": tr.world.digest(), "key": common.key_hash(case) if probes.get("protects_ok", 0) >= 2 else None,
+                "sched_key": common.key_hash(tr.schedule) if tr.schedule else None,
                 "fired": {"entropy_draws": tr.world.entropy.counter, "concurrent_groups": int(case["kind"] == "concurrent"),
                           "choice_points": tr.world.stats.get("choice_points", 0)},
                 "probes": {k: v for k, v in probes.items() if k != "protects_ok"} | {"protect_calls": probes.get("protects_ok", 0)},
